@@ -91,7 +91,7 @@ func (in *Instance) Concretise(m M) (string, []byte) {
 	case "UpdateTokenController":
 		pm = &types.MsgUpdateTokenController{From: from, NewTokenController: t.AddrString(gets(m, "new"))}
 	case "UpdateMaxMessageBodySize":
-		pm = &types.MsgUpdateMaxMessageBodySize{From: from, MessageSize: uint64(geti(m, "size"))}
+		pm = &types.MsgUpdateMaxMessageBodySize{From: from, MessageSize: SizeVal(geti(m, "size"))}
 	case "AddRemoteTokenMessenger":
 		pm = &types.MsgAddRemoteTokenMessenger{From: from, DomainId: t.Dom(gets(m, "d")), Address: t.Bytes(getb(m, "addr"))}
 	case "RemoveRemoteTokenMessenger":
